@@ -637,6 +637,17 @@ func (td *typeDecls) declare(name string, o *VOpaque, depth int) {
 			if d, ok := run.decision("B:" + cand.Origin + ".Dir()==1"); ok && d.Choice == 0 {
 				dir = "chan<- "
 			}
+			// the direction chosen by a switch over Dir() or by a lookup in a table keyed by direction
+			for _, d := range run.Decisions {
+				if strings.HasPrefix(d.Sym, "S:"+cand.Origin+".Dir()#") && d.Choice < len(d.Cands) {
+					switch d.Cands[d.Choice] {
+					case "types.RecvOnly":
+						dir = "<-chan "
+					case "types.SendOnly":
+						dir = "chan<- "
+					}
+				}
+			}
 		}
 		if dir == "chan " && !o.built && (u == nil || !u.built) {
 			// the direction of this channel type of the input was never asked for: it may be send-only or receive-only
